@@ -16,7 +16,7 @@ explicit function of the record of link `j` before it (same index; the list leng
 * `flush`   — `flush_link`: nothing or `take_batch`;
 * `hk`      — `hk_link`: `Hk.hkLink` (reconnect attempt, socket re-created or not / nothing / the alive branch) up to a grace
   reset before and a `last_sent` stamp after;
-* `setCfg`, `crit`, `failNext`, `failBind` — `cfg_link`: nothing.
+* `setCfg`, `crit`, `failNext`, `failBind` — `cfg_links`: nothing; `stamp` — the four verdict fields of one link.
 
 One lemma per constructor; `step_length` puts the lengths together.  Nothing here mentions a particular
 property: `Lemmas/SelShellLatch.lean` (C13) and `Lemmas/SelShellFrame.lean` (C12) read the guard fields,
@@ -355,8 +355,31 @@ def isArm : Ev → Bool
   | .hk _ => true
   | _ => false
 
-/-- `setCfg`, `crit`, `failNext` do not touch the links. -/
-theorem cfg_links (s : Sys F) (e : Ev) (h : isArm e = false) : (step s e).1.links = s.links := by
-  cases e <;> first | rfl | cases h
+/-- `setCfg`, `crit`, `failNext`, `failBind` do not touch the links; a verdict `stamp` rewrites the four
+verdict fields (`weak`, `loss_degraded`, `cc_backing_off`, `cc_target_bps`) of one link and nothing else. -/
+theorem cfg_links (s : Sys F) (e : Ev) (h : isArm e = false) (j : Nat) (l : FLink F)
+    (hl : s.links[j]? = some l) :
+    ∃ l', (step s e).1.links[j]? = some l' ∧
+      (l' = l ∨ ∃ weak ld ccb cct,
+        l' = { l with weak := weak, lossDegraded := ld, ccBackingOff := ccb, ccTarget := cct }) := by
+  cases e with
+  | client now pkt => cases h
+  | uplink now cid data => cases h
+  | flush now => cases h
+  | hk now => cases h
+  | setCfg cfg => exact ⟨l, hl, .inl rfl⟩
+  | crit d => exact ⟨l, hl, .inl rfl⟩
+  | failNext c => exact ⟨l, hl, .inl rfl⟩
+  | failBind c => exact ⟨l, hl, .inl rfl⟩
+  | stamp idx weak ld ccb cct =>
+    have hg : (step s (.stamp idx weak ld ccb cct)).1.links[j]? =
+        some (if j = idx then { l with weak := weak, lossDegraded := ld, ccBackingOff := ccb, ccTarget := cct }
+          else l) := by
+      show (stampLink s.links idx weak ld ccb cct)[j]? = _
+      rw [Uplink.stampLink_getElem?, hl]; rfl
+    refine ⟨_, hg, ?_⟩
+    split
+    · exact .inr ⟨weak, ld, ccb, cct, rfl⟩
+    · exact .inl rfl
 
 end Srtla.SelShell
